@@ -42,9 +42,15 @@ def validTopic (t : Bytes) : Bool := !t.isEmpty && !t.contains 35 && !t.contains
 def Msg.setQoS (m : Msg) (q : Nat) : Msg :=
   { p := { m.p with qos := q }, dirty := m.dirty || (decide (m.p.qos > 0) != decide (q > 0)) }
 
+/-- `message.nextPacketID()`: the process-wide counter is advanced until its low
+16 bits are not zero - identifier 0 is never assigned (as `Model.Codec.nextPacketID`).
+Returns the identifier and the counter. -/
+def nextPacketID (ctr : Nat) : Nat × Nat :=
+  if (ctr + 1) % 65536 ≠ 0 then ((ctr + 1) % 65536, ctr + 1) else ((ctr + 2) % 65536, ctr + 2)
+
 /-- `PublishMessage.Encode`: `none` = error.  Non-dirty: copy of the decoded
 bytes (in-place flag / id changes included).  Dirty: from fields; a QoS > 0
-message without identifier takes the next value of the process-wide counter.
+message without identifier takes the next identifier of the process-wide counter.
 Returns the fields on the wire, the (possibly mutated) object and the counter. -/
 def Msg.encode (m : Msg) (ctr : Nat) : Option (Pub × Msg × Nat) :=
   -- a QoS 0 PUBLISH carries no identifier on the wire
@@ -52,9 +58,9 @@ def Msg.encode (m : Msg) (ctr : Nat) : Option (Pub × Msg × Nat) :=
   if !m.dirty then some (wire m.p, m, ctr)
   else if m.p.topic.isEmpty then none
   else if m.p.qos != 0 && m.p.pktid == 0 then
-    let id := (ctr + 1) % 65536
+    let id := (nextPacketID ctr).1
     let m' := { m with p := { m.p with pktid := id } }
-    some (m'.p, m', ctr + 1)
+    some (m'.p, m', (nextPacketID ctr).2)
   else some (wire m.p, m, ctr)
 
 structure QEntry where
